@@ -392,3 +392,149 @@ func TestVerifC20(t *testing.T) {
 		w.Flush()
 	}
 }
+
+// ------------------------------------------------------------------ once-only API under concurrent calls
+//
+// request: {"id","mode","n","reps","seed"}; mode:
+//
+//	close-fresh      n goroutines call Close on a Client that was never connected
+//	close            ... on a connected client (1.0.1, no negotiation)
+//	shutdown         n goroutines call Shutdown
+//	mixed            half call Close, half Shutdown
+//	close-connect    n goroutines call Close while Connect is starting (first message in flight)
+//
+// All calls of one repetition are released together. Postcondition of "once only" (Close's and Shutdown's
+// documentation): at most one of the calls returns nil — exactly one for close-fresh, where nothing else can
+// close the Client —, every other call returns an error wrapping ErrClientClosed (Shutdown may also report a
+// context/connection error), and nothing panics (a second close(c.done) would).
+type c20OnceReq struct {
+	ID   string `json:"id"`
+	Mode string `json:"mode"`
+	N    int    `json:"n"`
+	Reps int    `json:"reps"`
+	Seed int64  `json:"seed"`
+}
+
+type c20OnceBad struct {
+	Rep    int      `json:"rep"`
+	Nil    int      `json:"nil"`
+	Other  int      `json:"other"`
+	Panics []string `json:"panics,omitempty"`
+}
+
+func c20OnceRep(rq c20OnceReq, rep int) (nils, closed, other int, panics []string) {
+	c := NewClient(WithLogger(nil), WithVersion(Version1_0_1))
+	var peer *c20Peer
+	var cli, peerConn net.Conn
+	connRes := make(chan error, 1)
+	if rq.Mode != "close-fresh" {
+		cli, peerConn = net.Pipe()
+		peer = &c20Peer{rq: c20Req{Version: 1}, conn: peerConn, stop: make(chan struct{})}
+		peer.wg.Add(1)
+		go peer.serve()
+		go func() {
+			defer func() {
+				if r := recover(); r != nil {
+					connRes <- fmt.Errorf("panic in Connect: %v", r)
+				}
+			}()
+			connRes <- c.Connect(cli)
+		}()
+		if rq.Mode != "close-connect" {
+			select {
+			case <-c.ready:
+			case <-time.After(3 * time.Second):
+			}
+		}
+	}
+	start := make(chan struct{})
+	var mu sync.Mutex
+	var wg sync.WaitGroup
+	for k := 0; k < rq.N; k++ {
+		wg.Add(1)
+		go func(k int) {
+			defer wg.Done()
+			defer func() {
+				if r := recover(); r != nil {
+					mu.Lock()
+					panics = append(panics, fmt.Sprint(r))
+					mu.Unlock()
+				}
+			}()
+			shutdown := rq.Mode == "shutdown" || (rq.Mode == "mixed" && k%2 == 1)
+			<-start
+			var err error
+			if shutdown {
+				ctx, cancel := context.WithTimeout(context.Background(), 500*time.Millisecond)
+				err = c.Shutdown(ctx)
+				cancel()
+			} else {
+				err = c.Close()
+			}
+			mu.Lock()
+			switch c20Class(err) {
+			case "nil":
+				nils++
+			case "closed":
+				closed++
+			default:
+				other++
+			}
+			mu.Unlock()
+		}(k)
+	}
+	close(start)
+	wg.Wait()
+	if peer != nil {
+		time.Sleep(100 * time.Microsecond)
+		peerConn.Close()
+		select {
+		case err := <-connRes:
+			if err != nil && c20Class(err) == "other" && len(err.Error()) > 5 && err.Error()[:5] == "panic" {
+				mu.Lock()
+				panics = append(panics, err.Error())
+				mu.Unlock()
+			}
+		case <-time.After(3 * time.Second):
+			panics = append(panics, "Connect did not return")
+		}
+		cli.Close()
+		close(peer.stop)
+		peer.wg.Wait()
+	}
+	return
+}
+
+func TestVerifC20Once(t *testing.T) {
+	lines, w, done := verifIO(t)
+	defer done()
+	for _, line := range lines {
+		var rq c20OnceReq
+		if err := json.Unmarshal([]byte(line), &rq); err != nil {
+			fmt.Fprintf(w, "{\"error\":%q}\n", err.Error())
+			continue
+		}
+		var bad []c20OnceBad
+		tot := map[string]int{}
+		for rep := 0; rep < rq.Reps; rep++ {
+			nils, closed, other, panics := c20OnceRep(rq, rep)
+			tot["nil"] += nils
+			tot["closed"] += closed
+			tot["other"] += other
+			wrong := nils > 1 || len(panics) > 0
+			if rq.Mode == "close-fresh" && (nils != 1 || other != 0) {
+				wrong = true
+			}
+			if (rq.Mode == "close" || rq.Mode == "close-connect") && other != 0 {
+				wrong = true // Close has only two outcomes
+			}
+			if wrong && len(bad) < 5 {
+				bad = append(bad, c20OnceBad{rep, nils, other, panics})
+			}
+		}
+		b, _ := json.Marshal(map[string]interface{}{"id": rq.ID, "mode": rq.Mode, "n": rq.N, "reps": rq.Reps, "totals": tot,
+			"once_bad": bad, "acks": 1})
+		fmt.Fprintln(w, string(b))
+		w.Flush()
+	}
+}
